@@ -2,21 +2,55 @@ TB = ("Trusted: Lean 4.33 kernel; axioms propext/Classical.choice/Quot.sound onl
       "the go/ast extractor (T1/T2) and the Go harness (T3: drivers, simulator, canonicalisation, monitors); the statement files Props/*.lean. ")
 
 TEXTS = {
-    "C02": {
-        "text": "Kernel-checked theorems over a map-by-map transcription of internal/graph.AddTransition: for every list of builder calls (hence every order) "
-                "Transitions = the declared pairs, IsValid = occurs in a call, IsTerminal = destination and never source. The transcription is tied to the code by "
-                "differential runs of the real graph package against the compiled Lean model on random graphs (self-loops, joins, duplicates, permutations) and an "
-                "independent oracle for validateTransition.",
-        "note": TB + "Modelled: Go maps as total functions with an explicit key-present bit.",
-        "technique": "Lean 4 proof (invariant over the fold of builder calls) + differential co-simulation of internal/graph",
+    'C02': {
+        "text": 'Kernel-checked: Transitions/IsValid/IsTerminal of the transcribed AddTransition = declared pairs for every list (order) of builder calls; validateTransition accepts exactly the declared pairs; if the updater changes anything, (current,next) is declared and the re-read record is at `current`; an undeclared destination writes nothing and fails (every fault plan); Trigger starts only at declared statuses. Whole-history status paths are checked on the implementation by a per-write monitor over simulated histories incl. re-entrant user functions. Engine model = lean/WorkflowModel/Model/Engine.lean (executable, adapter-call granularity, fault plans, user-function outcomes as parameters), tied to the code by co-simulation under the gated deterministic simulator: every observation line of every explored history must be identical; guards/tables are regenerated from source (T1), call orders are tripwires (T2). ',
+        "note": TB,
+        "technique": 'Lean 4 proof (graph invariant over builder-call folds; handler-level theorems for all environments) + differential/co-simulation',
     },
-    "C03": {
-        "text": "Kernel-checked: every entry of the run-state transition table REGENERATED from runstate.go is an edge of the documented lifecycle (decide over the whole table, lifted to all "
-                "integers), the lifecycle is closed on finished states, out-of-range states are rejected, DeleteData is accepted exactly from Completed/Cancelled/DataDeleted; terminal "
-                "classification is order-independent. Tie: exhaustive differential run of NewRunStateController (all states -1..9, all sequences of 2-3 operations on ONE controller) and of the "
-                "web UI update handler against the model, with a lifecycle oracle written from the property text.",
-        "note": TB + "The table, Finished/Stopped/Valid sets, controller targets are extracted from source on every run.",
-        "technique": "Lean 4 proof over regenerated table (decide + lifting lemma) + exhaustive differential check of the controller",
+    'C03': {
+        "text": 'Kernel-checked: regenerated controller table inside the documented lifecycle (decide over table + lifting), closed on finished states, out-of-range rejected; the controller rejects WITHOUT any adapter call, accepted/updater/delete writes are lifecycle edges from the record they are based on; Completed written exactly for terminal destinations (order-independent). Tie: exhaustive controller/web-UI differential (sequences on one controller), graph differential, co-simulated histories with a lifecycle monitor on every Store. Engine model = lean/WorkflowModel/Model/Engine.lean (executable, adapter-call granularity, fault plans, user-function outcomes as parameters), tied to the code by co-simulation under the gated deterministic simulator: every observation line of every explored history must be identical; guards/tables are regenerated from source (T1), call orders are tripwires (T2). ',
+        "note": TB,
+        "technique": 'Lean 4 proof over regenerated table + handler-level theorems + exhaustive differential + co-simulation',
+    },
+    'C07': {
+        "text": 'Kernel-checked for every consumer kind and every fault plan: a cursor moves during a delivery only if a filter excluded the event or the handler returned without error; a failing handler moves no cursor; a failing operation closes the receiver and backs off (needRole directly when the lease is gone); an event younger than the lag parks the consumer until exactly createdAt+lag and nothing runs meanwhile (lag test regenerated). Engine model = lean/WorkflowModel/Model/Engine.lean (executable, adapter-call granularity, fault plans, user-function outcomes as parameters), tied to the code by co-simulation under the gated deterministic simulator: every observation line of every explored history must be identical; guards/tables are regenerated from source (T1), call orders are tripwires (T2). ',
+        "note": TB,
+        "technique": 'Lean 4 proof (Hoare-style frame + decision theorems over the fault-injected monad) + co-simulation with faults at every call',
+    },
+    'C08': {
+        "text": "Kernel-checked (decision logic regenerated from source): for a stopped run the step gate, the callback gate (since fix F1) and the poller gate never reach the user function - in every environment nothing is written and no outcome consumed; a paused run's timer is kept; Resume writes Running at the same status/object with version+1 and that write is routed to the status topic. Engine model = lean/WorkflowModel/Model/Engine.lean (executable, adapter-call granularity, fault plans, user-function outcomes as parameters), tied to the code by co-simulation under the gated deterministic simulator: every observation line of every explored history must be identical; guards/tables are regenerated from source (T1), call orders are tripwires (T2). ",
+        "note": TB,
+        "technique": 'Lean 4 proof (gate functions over regenerated guards) + co-simulation with pause/cancel/delete at every point',
+    },
+    'C09': {
+        "text": 'Kernel-checked: in-progress guard = {Initiated,Running,Paused}; Trigger writes nothing or exactly one brand-new run (fresh ID, Initiated, v1, initial value, declared start) for every fault plan; refused with no write while the latest run is unfinished; undeclared start rejected before any adapter call. Engine model = lean/WorkflowModel/Model/Engine.lean (executable, adapter-call granularity, fault plans, user-function outcomes as parameters), tied to the code by co-simulation under the gated deterministic simulator: every observation line of every explored history must be identical; guards/tables are regenerated from source (T1), call orders are tripwires (T2). ',
+        "note": TB,
+        "technique": 'Lean 4 proof (handler-level, all fault plans) + co-simulation with a per-action unfinished-run counter',
+    },
+    'C12': {
+        "text": "Kernel-checked: ListValid spec (status, not completed, expiry <= queried instant); the poller reaches a timeout function only for the timer's OWN run (lookup by run ID, since fix F10), still at the status, neither finished nor stopped; moved-on runs get exactly that timer cancelled; timers created only for non-zero times; completed never listed again; cancel/complete touch one ID. Bundled timeout stores: see notes (store suites). Engine model = lean/WorkflowModel/Model/Engine.lean (executable, adapter-call granularity, fault plans, user-function outcomes as parameters), tied to the code by co-simulation under the gated deterministic simulator: every observation line of every explored history must be identical; guards/tables are regenerated from source (T1), call orders are tripwires (T2). ",
+        "note": TB,
+        "technique": 'Lean 4 proof (gate functions + store spec) + co-simulation with clock positions around expiry',
+    },
+    'C13': {
+        "text": 'Kernel-checked over regenerated tests: n=0 never pauses nor counts; below threshold counts exactly that (error,process,run) key, other keys untouched; at the n-th occurrence one Paused write (version+1) and the count restarts at 0; retry consumer writes nothing unless still Paused and the full interval has elapsed since updatedAt; Cancelled cannot be resumed. Engine model = lean/WorkflowModel/Model/Engine.lean (executable, adapter-call granularity, fault plans, user-function outcomes as parameters), tied to the code by co-simulation under the gated deterministic simulator: every observation line of every explored history must be identical; guards/tables are regenerated from source (T1), call orders are tripwires (T2). ',
+        "note": TB,
+        "technique": 'Lean 4 proof (decision theorems) + co-simulation with n in 1..3, several runs/errors, stamping store',
+    },
+    'C14': {
+        "text": 'Kernel-checked: hook consumer handles only events whose run_state header is its state; Paused/Cancelled/Completed writes are routed to the hook topic with that header; ack only after the hook returned nil (C07 instance), never writes; undecodable (deleted) objects are skipped. At-least-once = C05 (published) + C07 (no ack before success). Engine model = lean/WorkflowModel/Model/Engine.lean (executable, adapter-call granularity, fault plans, user-function outcomes as parameters), tied to the code by co-simulation under the gated deterministic simulator: every observation line of every explored history must be identical; guards/tables are regenerated from source (T1), call orders are tripwires (T2). ',
+        "note": TB,
+        "technique": 'Lean 4 proof (filter/routing/ack theorems) + co-simulation with failing hooks and faults',
+    },
+    'C15': {
+        "text": 'Kernel-checked: DeleteData accepted iff Completed/Cancelled/DataDeleted (regenerated table); the delete consumer writes nothing or exactly the scrubbed record (DataDeleted, same status/ids/createdAt, version+1, custom-delete result or marker) for every fault plan and delete outcome; a failing delete function writes nothing and fails; scrubbing is idempotent under redelivery. Engine model = lean/WorkflowModel/Model/Engine.lean (executable, adapter-call granularity, fault plans, user-function outcomes as parameters), tied to the code by co-simulation under the gated deterministic simulator: every observation line of every explored history must be identical; guards/tables are regenerated from source (T1), call orders are tripwires (T2). ',
+        "note": TB,
+        "technique": 'Lean 4 proof (handler-level, all environments) + co-simulation with delete requests at every point',
+    },
+    'C16': {
+        "text": 'Kernel-checked per write path: trigger v=1/created=updated=now; updater keeps identity/createdAt, version+1, updatedAt now, description of the NEW status (since fix F13), object = what the function left; controller/delete keep status/object resp. identity; skip and error (no count) persist nothing. Whole-history version/identity/updatedAt statements are checked per write by the Store monitor. Engine model = lean/WorkflowModel/Model/Engine.lean (executable, adapter-call granularity, fault plans, user-function outcomes as parameters), tied to the code by co-simulation under the gated deterministic simulator: every observation line of every explored history must be identical; guards/tables are regenerated from source (T1), call orders are tripwires (T2). ',
+        "note": TB,
+        "technique": 'Lean 4 proof (record-construction theorems) + per-write monitors under co-simulation',
     },
     "C04": {
         "text": "Kernel-checked over the engine model (stepHandle = stepConsumer, gate operators REGENERATED from step.go): an announcement older than the record returned by the store writes nothing, "
@@ -49,8 +83,8 @@ TEXTS = {
     },
 }
 
-NOT_APPLICABLE = {p: "check under construction in this session (engine model + simulator not yet committed); will be claimed once its theorems and tie exist" for p in
-                  ["C01", "C07", "C08", "C09", "C11", "C12", "C13", "C14", "C15", "C16", "C17", "C18", "C19", "C20"]}
+NOT_APPLICABLE = {p: "check under construction in this session; will be claimed once its theorems and tie exist" for p in
+                  ["C01", "C11", "C17", "C18", "C19", "C20"]}
 
 NOTES = ("One engine: Lean 4 model + theorems, regenerated facts (T1/T2), co-simulation (T3). ./check <id> quick|thorough; ./check replay <path>. "
          "known-findings.json lists genuine defects that are recorded rather than repaired.")
